@@ -7,9 +7,12 @@
     its consensus is a ranking of the universe that respects the partition, the mark is set exactly when no
     component is delegated to the auxiliary algorithm, and a marked consensus is a global minimiser provided
     the exact algorithm returns optima of the sub-problems (that is property C05; per run the judge also
-    compares against the verified brute-force optimum).  Outside the model: igraph's SCC routine (its answer
-    is run through [is_partition_of] and [no_back_arcs] on every check) and the ILP solver. *)
-From Corankco Require Import Prelude Scheme Rank KemenySpec CostTable CostTableProof OptTheory Partition PartitionProof ConsistentProof ParConsProof.
+    compares against the verified brute-force optimum).  (4) The partition the MODEL computes (Floyd-Warshall closure, classes of mutual reachability
+    sorted by number of ancestors) is proved to be an ordered partition without back arcs for every table
+    ([C06_model_partition], [C06_parcons_on_model_partition]); igraph's own answer is compared with it as a set of
+    groups and run through [is_partition_of] / [no_back_arcs] on every check (igraph's ORDER is the one thing taken
+    from the library).  Outside the model: the ILP solver. *)
+From Corankco Require Import Prelude Scheme Rank KemenySpec CostTable CostTableProof OptTheory Partition PartitionProof ConsistentProof ParConsProof SccProof ParConsUser.
 Local Open Scope Z_scope.
 
 Theorem C06_partition_admits_optimum : forall K U P,
@@ -84,3 +87,25 @@ Theorem C06_parcons : forall s D U P bound exact aux,
   (snd (parcons K bound exact aux P) = true -> kemeny_spec s D c = opt K U /\ is_optimal K U c).
 Proof. exact parcons_dataset_spec. Qed.
 Print Assumptions C06_parcons.
+
+(** the partition computed by the model: an ordered partition of the ids without back arcs, for every table *)
+Theorem C06_model_partition : forall K n,
+  is_partition_of (seq 0 n) (sccs K n) = true /\ no_back_arcs K (sccs K n) = true.
+Proof. intros K n. split; [apply sccs_is_partition|apply sccs_no_back_arcs]. Qed.
+Print Assumptions C06_model_partition.
+
+Theorem C06_model_partition_admits_optimum : forall K n, mirror K ->
+  exists c, is_optimal K (seq 0 n) c /\ Forall (fun b => b <> []) c /\
+            forall x y, In x (seq 0 n) -> In y (seq 0 n) -> bucket_id (sccs K n) x < bucket_id (sccs K n) y -> bucket_id c x < bucket_id c y.
+Proof. exact model_partition_admits_optimum. Qed.
+Print Assumptions C06_model_partition_admits_optimum.
+
+Theorem C06_parcons_on_model_partition : forall K n bound exact aux,
+  mirror K ->
+  (forall G, In G (sccs K n) -> wfU G (exact G) /\ score K (exact G) = opt K G) ->
+  (forall G, In G (sccs K n) -> wfU G (aux G)) ->
+  let P := sccs K n in
+  let c := fst (parcons K bound exact aux P) in
+  wfU (seq 0 n) c /\ before P c /\ (snd (parcons K bound exact aux P) = true -> score K c = opt K (seq 0 n) /\ is_optimal K (seq 0 n) c).
+Proof. exact parcons_on_model_partition. Qed.
+Print Assumptions C06_parcons_on_model_partition.
